@@ -139,6 +139,14 @@ def check_case(case):
         if v.status == "fail" and v.bucket.startswith("tostring"):
             case.setdefault("tostring_before", _TS_N[0])
         return v
+    if kind == "flagname":
+        f = _filter({k: bool(v) for k, v in case.get("flags", {}).items()})
+        with warnings.catch_warnings():
+            warnings.simplefilter("ignore")
+            out = f.coerceAttribute(case["name"]) if case.get("attr") else f.coerceElement(case["name"])
+        if out != case["name"] and ":" not in case["name"] and expat_name(case["name"], bool(case.get("attr"))) == case["name"]:
+            return Verdict("fail", "legal colon-free name %r becomes %r under flags %s" % (case["name"], out, case.get("flags")), "legal-changed-under-flags", nontrivial=True)
+        return Verdict("pass", nontrivial=True)
     if kind == "pair":
         f = _filter()
         a, b = case["a"], case["b"]
@@ -202,6 +210,7 @@ def shards(tier):
     out += [{"kind": "hyp-names", "n": 6000 if quick else 150000} for _ in range(4)]
     out += [{"kind": "hyp-text", "n": 5000 if quick else 120000} for _ in range(3)]
     out += [{"kind": "flags-enum"}]
+    out += [{"kind": "pubid-sweep", "part": i, "of": 2} for i in range(2)]
     return out
 
 
@@ -226,6 +235,39 @@ def run_shard(desc, seed, tier):
                     acc.add(case, v)
         acc.exhaustive = True
         acc.extra["bmp_codepoints"] = len(range(desc["part"], 0x10000, desc["of"]))
+    elif kind == "pubid-sweep":
+        # every BMP character inside a public identifier, under every flag set for a sample: the result must consist of PubidChars only
+        import re as _re
+        ok = _re.compile(r"[\x20\x0d\x0aa-zA-Z0-9\-'()+,./:=?;!*#@$_%]*\Z")
+        fsets = [{}] + [dict(zip(FLAGS, [(m >> i) & 1 == 1 for i in range(len(FLAGS))])) for m in (0, 63, 21, 42)]
+        for fi, flags in enumerate(fsets):
+            f = _filter({k: bool(v) for k, v in flags.items()})
+            for cp in range(desc["part"], 0x10000, desc["of"]):
+                if 0xD800 <= cp <= 0xDFFF:
+                    continue
+                data = "-//a" + chr(cp) + "b//EN"
+                with warnings.catch_warnings():
+                    warnings.simplefilter("ignore")
+                    out = f.coercePubid(data)
+                case = {"kind": "pubid", "data": data, "flags": flags}
+                if not ok.match(out):
+                    acc.add(case, Verdict("fail", "public id %s -> %s contains a non-PubidChar" % (short(data), short(out)), "pubid-illegal", nontrivial=True))
+                elif fi == 0 and cp % 64 == 0:
+                    acc.add(case, Verdict("pass", nontrivial=out != data, sig=sig64("pub", cp)))
+        # names that are legal and colon-free stay what they are under EVERY flag set
+        for m in range(64):
+            flags = dict(zip(FLAGS, [(m >> i) & 1 == 1 for i in range(len(FLAGS))]))
+            f = _filter(flags)
+            for name in ("xmlns", "xml", "xmlnsfoo", "a", "lang", "_x", "id", "x-y.z"):
+                for as_attr in (True, False):
+                    with warnings.catch_warnings():
+                        warnings.simplefilter("ignore")
+                        out = f.coerceAttribute(name) if as_attr else f.coerceElement(name)
+                    case = {"kind": "flagname", "name": name, "attr": as_attr, "flags": flags}
+                    if out != name:
+                        acc.add(case, Verdict("fail", "legal colon-free %s name %r becomes %r under flags %s" % ("attribute" if as_attr else "element", name, out, flags), "legal-changed-under-flags", nontrivial=True))
+                    else:
+                        acc.add(case, Verdict("pass", nontrivial=True, sig=sig64("flagname", name, as_attr, m)))
     elif kind == "hyp-names":
         f = _filter()
         seen = {}
